@@ -45,11 +45,13 @@ impl SequenceStreamingDispatcher {
             context_id: _,
             since,
             time_field,
+            sequence_time_field,
             where_clause,
             limit: _,
             offset: _,
             order_by,
             return_fields,
+            link_field,
             ..
         } = base_command
         else {
@@ -62,6 +64,21 @@ impl SequenceStreamingDispatcher {
         let transformed_where_clause = where_clause
             .as_ref()
             .and_then(|expr| transform_where_clause_for_event_type(expr, event_type));
+
+        // A RETURN list must not hide the columns the sequence itself needs: the merger groups
+        // on the link field and orders on the USING TIME field, so both stay in the projection
+        // (the merger drops them again from the result if they were not asked for)
+        let return_fields = return_fields.as_ref().map(|fields| {
+            let mut fields = fields.clone();
+            if !fields.is_empty() {
+                for needed in [link_field, sequence_time_field].into_iter().flatten() {
+                    if !fields.contains(needed) {
+                        fields.push(needed.clone());
+                    }
+                }
+            }
+            fields
+        });
 
         // Create a simple query for this event type without sequence info
         // NOTE: We don't pass LIMIT to sub-queries - they should return all matching events.
@@ -77,7 +94,7 @@ impl SequenceStreamingDispatcher {
             offset: None, // Don't apply offset to sub-queries
             order_by: order_by.clone(),
             picked_zones: None, // Will be set by planner
-            return_fields: return_fields.clone(),
+            return_fields,
             link_field: None, // Not needed for sub-queries
             aggs: None,
             time_bucket: None,
